@@ -163,3 +163,59 @@ def twoproc_scenarios():
     out.append(sc("2proc:token:1;1,1+1", "2proc:tok", [[XP("xpA", [TOK("t", 1), J("a", 1, tok=[("t", 1)])])],
                                                         [XP("xpB", [TOK("t", 1), J("b", 2, tok=[("t", 1)]), J("c", 3, tok=[("t", 1)])])]], fine=True))
     return out
+
+
+def kill_scenarios():
+    """First run (process 1) killed at a scheduling point, then the same script again in a fresh process."""
+    out = []
+
+    def mk(name, body):
+        ops = [XP("xp", body)]
+        import copy
+        return sc(f"kill:{name}", f"kill:{name}", [ops], restart=copy.deepcopy(ops), fine=True, kill=True)
+    out.append(mk("single", [J("a", 1)]))
+    out.append(mk("chain2", [J("a", 1), J("b", 2, [("a", "up")])]))
+    out.append(mk("fork", [J("a", 1), J("b", 2, [("a", "ups")]), J("c", 3, [("a", "holder")])]))
+    out.append(mk("token1", [TOK("t", 1), J("a", 1, tok=[("t", 1)])]))
+    out.append(mk("chain2+token", [TOK("t", 1), J("a", 1, tok=[("t", 1)]), J("b", 2, [("a", "up")], tok=[("t", 1)])]))
+    out.append(mk("two+token", [TOK("t", 1), J("a", 1, tok=[("t", 1)]), J("b", 2, tok=[("t", 1)])]))
+    return out
+
+
+def index_scenarios(nruns=3, jobs=(1, 2), endings=("ok", "raise"), wait_before_raise=(True,)):
+    """All histories of `nruns` runs of one experiment name, each submitting a subset of the jobs and ending normally
+    or by an exception in the block; the index is examined (and the real `orphans` command run) after every run."""
+    subsets = [c for r in range(len(jobs) + 1) for c in itertools.combinations(jobs, r)]
+    actions = [(s, e, w) for s in subsets for e in endings for w in (wait_before_raise if e == "raise" else (True,))]
+    out = []
+    for hi, hist in enumerate(itertools.product(actions, repeat=nruns)):
+        ops, runs = [], []
+        for ri, (sub, end, w) in enumerate(hist):
+            body = [J(f"r{ri}v{x}", x) for x in sub]
+            if end == "raise":
+                body += ([{"op": "waitxp"}] if w else []) + [{"op": "raise"}]
+            ops.append(XP("x", body, catch=True))
+            ops.append({"op": "index", "name": "x"})
+            runs.append({"jobs": list(sub), "end": end})
+        name = "idx:" + "|".join(f"{''.join(map(str, s)) or '-'}{'!' if e == 'raise' else ''}{'' if w else '~'}" for s, e, w in hist)
+        out.append(sc(name, "index", [ops], history={"p1": runs}))
+    return out
+
+
+def index_kill_scenarios():
+    """A completed run, then a run killed at every scheduling point, then the index is examined by a fresh process
+    (which also runs the experiment again, normally)."""
+    out = []
+    for first, second in (((1, 2), (2, 3)), ((1,), (1, 2)), ((1, 2), ())):
+        p1 = [XP("x", [J(f"a{x}", x) for x in first]), {"op": "index", "name": "x"},
+              XP("x", [J(f"b{x}", x) for x in second]), {"op": "index", "name": "x"}]
+        restart = [{"op": "index", "name": "x"}, XP("x", [J(f"c{x}", x) for x in second]), {"op": "index", "name": "x"}]
+        out.append(sc(f"idxkill:{first}->{second}", "index:kill", [p1], restart=restart, fine=True, kill=True,
+                      history={"p1": [{"jobs": list(first), "end": "ok"}, {"jobs": list(second), "end": "ok"}],
+                               "restart": [{"jobs": list(second), "end": "kill"}, {"jobs": list(second), "end": "ok"}]},
+                      first_plan=list(first)))
+    return out
+
+
+def index_twoproc_scenarios():
+    return [sc("idx:2proc-same-experiment", "index:2proc", [[XP("x", [J("a", 1)])], [XP("x", [J("b", 2)])]], fine=True)]
